@@ -251,6 +251,9 @@ func (k *classifier) walk(ns []Node, cx classCtx) {
 			if i+1 < len(ns) && ns[i+1].Else {
 				k.add("for-else")
 			}
+			if i+1 < len(ns) && ns[i+1].ElseIf != "" {
+				k.add("for-else-if-tail")
+			}
 			if cx.file > 0 {
 				k.add("for-in-component")
 			}
@@ -388,6 +391,12 @@ func (k *classifier) walk(ns []Node, cx classCtx) {
 			}
 			if n.If != "" {
 				k.add("slot-own-v-if")
+			}
+			if n.ElseIf != "" || n.Else {
+				k.add("slot-own-v-else")
+				if i > 0 && ns[i-1].For != nil {
+					k.add("slot-own-v-else-after-for")
+				}
 			}
 			if n.For != nil {
 				k.add("slot-own-v-for")
